@@ -46,6 +46,8 @@ VALUE_SHAPES = {
     'plain-args': {'__obj__': 'Plain1', 'args': [1, 'b']},
     'plain-kwargs': {'__obj__': 'Plain1', 'kwargs': {'a': 1, 'b': 2}},
     'auto-default': {'__obj__': 'Auto2', 'kwargs': {'a': 1}},
+    # parameter objects as ELEMENTS of a list / mapping parameter (e.g. a list of preprocessing steps)
+    'auto-in-list': [{'__obj__': 'Auto1', 'kwargs': {'a': 1, 'b': 2}}, {'k': {'__obj__': 'Auto2', 'kwargs': {'a': 'x'}}}, {'__obj__': 'Hand1', 'args': [3]}],
 }
 
 
@@ -58,7 +60,7 @@ def bases(tier):
         if name == 'mount2':
             d['context'] = worlds.apply_variant(families.mount2(), 'v12')['context']
         out.append(d)
-    shapes = list(VALUE_SHAPES) if tier != 'quick' else ['nested', 'placeholder', 'auto-list', 'auto-dict', 'auto-set', 'plain-kwargs', 'auto-default']
+    shapes = list(VALUE_SHAPES) if tier != 'quick' else ['nested', 'placeholder', 'auto-list', 'auto-dict', 'auto-set', 'plain-kwargs', 'auto-default', 'auto-in-list']
     for s in shapes:
         out.append(pvals(VALUE_SHAPES[s], s))
     return out
@@ -242,6 +244,32 @@ def rw_default_equal_other_form(d):
     return d if ch else None
 
 
+def rw_obj_unpersisted_args(d):
+    """arguments of parameter objects that are not persisted: toggle `verbose`, spell out a not-persisted default (Auto2.c=5)"""
+    before = jdump_order(d)
+
+    def tw(o):
+        if isinstance(o, dict) and '__obj__' in o:
+            out = dict(o)
+            kw = dict(o.get('kwargs') or {})
+            if o['__obj__'] == 'Auto1' and 'args' not in o:
+                kw['verbose'] = not kw.get('verbose', False)
+            if o['__obj__'] == 'Auto2' and 'c' not in kw:
+                kw['c'] = 5
+            out['kwargs'] = {k: tw(v) for k, v in kw.items()}
+            if 'args' in o:
+                out['args'] = [tw(x) for x in o['args']]
+            return out
+        if isinstance(o, dict):
+            return {k: tw(v) for k, v in o.items()}
+        if isinstance(o, list):
+            return [tw(x) for x in o]
+        return o
+    for c in d['configs'].values():
+        c['values'] = {k: tw(v) for k, v in c.get('values', {}).items()}
+    return d if jdump_order(d) != before else None
+
+
 def rw_to_context(kind):
     def f(d):
         root = d['configs'][_inner_root(d)]
@@ -306,7 +334,7 @@ def rw_add_optional(d):
     return d
 
 
-REWRITINGS = [rw_default_equal_other_form, rw_rename, rw_move, rw_media, rw_wrap('o'), rw_wrap('o::p'), rw_perm_lists, rw_perm_keys, rw_perm_obj_dict, rw_perm_obj_kwargs, rw_ignored, rw_default_spell,
+REWRITINGS = [rw_obj_unpersisted_args, rw_default_equal_other_form, rw_rename, rw_move, rw_media, rw_wrap('o'), rw_wrap('o::p'), rw_perm_lists, rw_perm_keys, rw_perm_obj_dict, rw_perm_obj_kwargs, rw_ignored, rw_default_spell,
               rw_to_context('dict'), rw_to_context('json'), rw_to_context('list'), rw_global_var, rw_perm_meta, rw_add_optional]
 
 
